@@ -26,7 +26,6 @@ package main
 // a wait that is far longer than the delay.
 
 import (
-	"context"
 	"fmt"
 	"strconv"
 	"strings"
@@ -201,63 +200,6 @@ func (t *waitRT) assemble(raw []string, tEnd time.Time) []string {
 	return out
 }
 
-// ---- timed wrappers for plain nodes: same interfaces as the wrapped node, Exec bracketed ----
-
-type timedNode struct {
-	flyt.Node
-	t     *waitRT
-	calls int
-}
-
-func (n *timedNode) Exec(ctx context.Context, p any) (any, error) {
-	k := n.calls
-	n.calls++
-	n.t.enter(0, k)
-	r, err := n.Node.Exec(ctx, p)
-	n.t.leave(0, k)
-	return r, err
-}
-
-type timedRetry struct {
-	*timedNode
-	r flyt.RetryableNode
-}
-
-func (n *timedRetry) GetMaxRetries() int     { return n.r.GetMaxRetries() }
-func (n *timedRetry) GetWait() time.Duration { return n.r.GetWait() }
-
-type timedFb struct {
-	*timedNode
-	f flyt.FallbackNode
-}
-
-func (n *timedFb) ExecFallback(p any, err error) (any, error) { return n.f.ExecFallback(p, err) }
-
-type timedRetryFb struct {
-	*timedNode
-	r flyt.RetryableNode
-	f flyt.FallbackNode
-}
-
-func (n *timedRetryFb) GetMaxRetries() int                         { return n.r.GetMaxRetries() }
-func (n *timedRetryFb) GetWait() time.Duration                     { return n.r.GetWait() }
-func (n *timedRetryFb) ExecFallback(p any, err error) (any, error) { return n.f.ExecFallback(p, err) }
-
-func wrapTimed(inner flyt.Node, t *waitRT) flyt.Node {
-	base := &timedNode{Node: inner, t: t}
-	r, isR := inner.(flyt.RetryableNode)
-	f, isF := inner.(flyt.FallbackNode)
-	switch {
-	case isR && isF:
-		return &timedRetryFb{base, r, f}
-	case isR:
-		return &timedRetry{base, r}
-	case isF:
-		return &timedFb{base, f}
-	}
-	return base
-}
-
 // ---- running one scenario ----
 
 type waitRun struct {
@@ -290,7 +232,9 @@ func runWaitOnce(sc *WaitScenario) (res waitRun) {
 		if len(sc.LeafScript.WaitCancel) > 0 {
 			t.barrier = 1
 		}
-		node = wrapTimed(e.buildLeaf(0, sc.Leaf), t)
+		node = e.buildLeaf(0, sc.Leaf)
+		e.leafExecEnter = func(k int) { t.enter(0, k) }
+		e.leafExecLeave = func(k int) { t.leave(0, k) }
 	case sc.Batch != nil && sc.BatchScript != nil && sc.Leaf == nil:
 		bs := *sc.BatchScript
 		bs.Items = append([]ItemScript{}, bs.Items...)
